@@ -1,8 +1,11 @@
 package main
 
 import (
+	"context"
 	"errors"
 	"fmt"
+	"io"
+	"os"
 	"strconv"
 	"strings"
 	"time"
@@ -42,6 +45,14 @@ func suiteC10Instr(c *Ctx) {
 			if r.Bool() {
 				errIn = errors.New("boom" + strconv.Itoa(k))
 				errTok = strconv.Itoa(k + 1)
+				if r.Chance(50) {
+					// errors a caller might be tempted to treat specially: sentinel and wrapped context / io errors,
+					// typed nil-like values; the property says ANY error comes back unchanged and counts as an error
+					pool := []error{context.Canceled, context.DeadlineExceeded, io.EOF, io.ErrUnexpectedEOF, os.ErrNotExist,
+						fmt.Errorf("wrapped: %w", context.Canceled), fmt.Errorf("wrapped: %w", io.EOF), errors.New("")}
+					errIn = pool[r.Intn(len(pool))]
+					c.Cov.Hit("exec.sentinel-or-wrapped-error")
+				}
 			}
 			calls := 0
 			w.log().Take()
